@@ -321,11 +321,7 @@ impl Backend {
 
                 // Create additional text edit to add the fixture as a parameter
                 let additional_text_edits = insertion_info.as_ref().map(|info| {
-                    let text = if info.needs_comma {
-                        format!(", {}", ef.fixture.name)
-                    } else {
-                        ef.fixture.name.clone()
-                    };
+                    let text = info.insertion_text(&ef.fixture.name);
                     let lsp_line = Self::internal_line_to_lsp(info.line);
                     vec![TextEdit {
                         range: Self::create_point_range(lsp_line, info.char_pos as u32),
